@@ -1356,6 +1356,18 @@ def run_cas_scenario(seed):
             cl.request(H.render("POST", "/dedupA?context=" + H.id_to_s(c_other), body=shared))
         for k in range(2):
             cl.request(H.render("POST", "/dedupA?ttl=head:1", body=b"newer-%d" % k))
+        # ... nor may an explicit removal of ONE frame (DELETE /<id>, nu .remove) take the bytes away from the others
+        st_c, _, out_c = cl.request(H.render("POST", "/dedupC", body=shared))
+        if st_c == 200:
+            cl.request(H.render("DELETE", "/" + json.loads(out_c)["id"]))
+        dj = cl.cmd("nueval " + xh('"%s" | .append dedupD | get id' % "nu-shared"))
+        cl.cmd("nueval " + xh('"nu-shared" | .append dedupE | get id'))
+        if dj.startswith("NU ok "):
+            try:
+                cl.request(H.render("DELETE", "/" + json.loads(dj[6:])))
+                seen[integ(b"nu-shared")] = b"nu-shared"
+            except Exception:
+                pass
         time.sleep(0.05)
         cl.request(H.render("GET", "/"))          # a read: hands expired time:N frames to the collector
         cl.gc()
@@ -1365,7 +1377,7 @@ def run_cas_scenario(seed):
                 rep["reads"] += 1
                 if cl.cas(f["hash"]) is None:
                     rep["violations"].append(dict(what=f"frame {f['topic']} (context {'zero' if f['ctx'] == 0 else 'non-zero'}) carries hash {f['hash']} but its content "
-                                                       f"is gone after the collector evicted / expired ANOTHER frame with the same bytes"))
+                                                       f"is gone after ANOTHER frame with the same bytes was evicted, expired or removed"))
                     break
         pump()
         s.close()
